@@ -159,7 +159,8 @@ func Encode(enc string, sn schema.Node, n datanode.DataNode) (out []byte, panick
 	return
 }
 
-// Decode runs the real decoder under a panic trap: "tree", "error" or "panic".
+// Decode runs the real decoder under a panic trap: "tree", "error", "panic", or - value xor error -
+// "tree-and-error" / "neither".
 func Decode(enc string, sn schema.Node, in []byte) (out string, t *Tree, detail string) {
 	defer func() {
 		if r := recover(); r != nil {
@@ -167,6 +168,9 @@ func Decode(enc string, sn schema.Node, in []byte) (out string, t *Tree, detail 
 		}
 	}()
 	n, err := encoding.NewUnmarshaller(encType(enc)).SetValidation(schema.ValidateAll).Unmarshal(sn, in)
+	if err != nil && n != nil {
+		return "tree-and-error", FromDataNode(n), ""
+	}
 	if err != nil {
 		msg := strings.SplitN(err.Error(), "\n", 2)[0]
 		if len(msg) > 120 {
@@ -175,7 +179,7 @@ func Decode(enc string, sn schema.Node, in []byte) (out string, t *Tree, detail 
 		return "error", EmptyTree, Ph(msg)
 	}
 	if n == nil {
-		return "error", EmptyTree, "nil tree without error"
+		return "neither", EmptyTree, ""
 	}
 	return "tree", FromDataNode(n), ""
 }
